@@ -14,13 +14,14 @@
 (*   nq     : number of held queries ever opened                           *)
 (*   regs   : sequence of [f, live] registered filters                     *)
 (*   cfg    : [comps, rels, sized, nres, totalBits, lst]                   *)
+(*   pool   : the entity pool as DumpEntities exposes it (EntityPool.tla)  *)
 (*                                                                         *)
 (* Handles returned by creation calls are INPUTS of the step operators     *)
 (* (constrained by Fresh, never predicted here): this layer is free of     *)
 (* allocation and ordering policy and is what the properties talk about.   *)
 (* Module EntityPool predicts the handles, module Arche the hidden state.  *)
 (***************************************************************************)
-EXTENDS Integers, Sequences, FiniteSets, TLC
+EXTENDS Integers, Sequences, FiniteSets, TLC, EntityPool
 
 Zero == <<0, 0>>
 
@@ -51,7 +52,7 @@ EmptyFun == [x \in {} |-> 0]
 
 InitWorld(cfg) ==
     [ alive |-> {}, iss |-> <<>>, comps |-> EmptyFun, vals |-> EmptyFun, tgt |-> EmptyFun,
-      res |-> EmptyFun, open |-> EmptyFun, nq |-> 0, regs |-> <<>>, cfg |-> cfg ]
+      res |-> EmptyFun, open |-> EmptyFun, nq |-> 0, regs |-> <<>>, cfg |-> cfg, pool |-> PoolInit ]
 
 Locked(w) == DOMAIN w.open # {}
 
@@ -313,6 +314,14 @@ BatchRemoveStep(w, M) == DropEntities(w, M)
 BatchRemoveEvents(w, M) == { RemoveEvent(w, h) : h \in M }
 
 ResetStep(w) == [InitWorld(w.cfg) EXCEPT !.regs = w.regs, !.nq = w.nq]
+
+(* LoadEntities: only into a world that has no entity slots (fresh or reset). *)
+LoadWhy(w) == First(<< LockWhy(w), IF Len(w.pool.ents) > 1 \/ w.pool.avail > 0 THEN "args" ELSE "" >>)
+LoadStep(w, d) ==
+    LET p == [ents |-> d.ents, next |-> d.next, avail |-> d.avail]
+        A == PAliveSet(p) IN
+    [w EXCEPT !.alive = A, !.comps = [h \in A |-> {}], !.vals = [h \in A |-> EmptyFun],
+              !.tgt = [h \in A |-> Zero], !.pool = p]
 
 ResWhy(w, add, r) == IF add = (r \in DOMAIN w.res) THEN "args" ELSE ""
 ResStep(w, add, r, tok) ==
